@@ -163,6 +163,8 @@ func c11DamagedState(base []c11SrcCert, u string) (*c11State, error) {
 	case "file500": // http: listed, the server fails
 		c := slot("3")
 		st.files[c.File+"-key.pem"] = c11File{status: 500}
+	case "kv500": // consul: the KV store cannot be queried
+		st.listing = "kv500"
 	case "list404", "list500", "listgarbage", "down": // http: the listing itself is unavailable
 		st.listing = strings.TrimPrefix(u, "list")
 	default:
@@ -689,6 +691,172 @@ func c11RunHTTP(h *c11SrcHistory, strict bool, report c11SrcReport) (loads, eval
 	return loads, evals, nil
 }
 
+// ---------------------------------------------------------------- consul source
+
+// c11RunConsul replays one history through a real ConsulSource against verifx.KVFake.
+// A load is a change of the KV store (every write moves the index, also the re-upload of
+// identical files = "same"); the watcher has processed it when its next blocking query parks
+// at the current index.  A watcher that keeps asking with a stale index never parks: more
+// than 25 queries without catching up is a spin (a count, not a time).  The source converts
+// what it listed in a second goroutine, so publications are read as an ordered stream: the
+// next publication that differs from the set in effect must be the next good content of the
+// history (re-publishing the set in effect is unobservable and ignored); a final good load
+// flushes the stream.
+func c11RunConsul(h *c11SrcHistory, strict bool, report c11SrcReport) (loads, evals int, err error) {
+	states, err := c11SrcStates(h)
+	if err != nil {
+		return 0, 0, err
+	}
+	kv := verifx.NewKVFake("fabio/cert")
+	defer kv.Close()
+	obs := &c11Observed{inner: ConsulSource{CertURL: kv.URL()}, out: make(chan []tls.Certificate)}
+	cfg, err := TLSConfig(obs, strict, 0, 0, nil)
+	if err != nil {
+		return 0, 0, err
+	}
+	var in chan []tls.Certificate
+	for in == nil {
+		if in = obs.input(); in == nil {
+			runtime.Gosched()
+		}
+	}
+	ders := func(id string) [][]byte {
+		var d [][]byte
+		for _, c := range h.Sets[id] {
+			d = append(d, c11SrcMint(c).cert.Certificate[0])
+		}
+		return d
+	}
+	same := func(cs []tls.Certificate, want [][]byte) bool {
+		if len(cs) != len(want) {
+			return false
+		}
+		for i := range want {
+			if len(cs[i].Certificate) == 0 || !bytes.Equal(cs[i].Certificate[0], want[i]) {
+				return false
+			}
+		}
+		return true
+	}
+	reg := ""
+	// next returns the next publication that differs from the set in effect
+	next := func(wait time.Duration) (cs []tls.Certificate, ok bool) {
+		var tm <-chan time.Time
+		if wait > 0 {
+			t := time.NewTimer(wait)
+			defer t.Stop()
+			tm = t.C
+		}
+		for {
+			if wait > 0 {
+				select {
+				case cs = <-in:
+				case <-tm:
+					return nil, false
+				}
+			} else {
+				select {
+				case cs = <-in:
+				default:
+					return nil, false
+				}
+			}
+			if same(cs, ders(reg)) {
+				continue
+			}
+			return cs, true
+		}
+	}
+	store := func(cs []tls.Certificate) { obs.out <- cs; obs.out <- cs }
+	if ok, _ := kv.WaitCaughtUp(25, c11GateTimeout); !ok {
+		return 0, 0, fmt.Errorf("the consul source did not issue its first blocking query")
+	}
+	var silent []int // steps since the last publication that must not publish
+	for j, st := range states {
+		step := h.Hist[j]
+		nq := len(kv.Queries())
+		t0 := time.Now()
+		if st.listing == "kv500" {
+			kv.Fail(2)
+		} else {
+			files := map[string][]byte{}
+			for n, f := range st.files {
+				files[n] = f.data
+			}
+			kv.Put(files)
+		}
+		ok, asked := kv.WaitCaughtUp(25, c11GateTimeout)
+		loads++
+		if !ok && asked > 25 {
+			qs := kv.Queries()
+			lastq := qs[len(qs)-1]
+			report("spin", step.Kind, step.Content, "", fmt.Sprintf("after load %d (%s %s) the consul source sent %d list queries in %v without catching up: it keeps waiting for index %d while the store is at %d, so every query returns at once",
+				j+1, step.Kind, step.Content, asked, time.Since(t0), lastq.Index, lastq.Cur))
+			return loads, evals, nil
+		}
+		if !ok {
+			return loads, evals, fmt.Errorf("the consul source did not come back with a blocking query after load %d (%s %s)", j+1, step.Kind, step.Content)
+		}
+		if st.listing == "kv500" { // pace of the retries while the store cannot be queried
+			qs := kv.Queries()[nq:]
+			prev := t0
+			for _, q := range qs {
+				if gap := q.At.Sub(prev); gap < c11Refresh/3 {
+					report("spin", step.Kind, step.Content, "", fmt.Sprintf("load %d (%s %s): the failing store was queried again after %v", j+1, step.Kind, step.Content, gap))
+					return loads, evals, nil
+				}
+				prev = q.At
+			}
+		}
+		if step.Pub == "" {
+			silent = append(silent, j)
+			if cs, got := next(0); got {
+				evals += c11JudgeStep(h, j, [][]tls.Certificate{cs}, cfg, strict, report)
+				return loads, evals, nil
+			}
+			continue
+		}
+		cs, got := next(c11GateTimeout)
+		if !got {
+			evals += c11JudgeStep(h, j, nil, cfg, strict, report)
+			return loads, evals, nil
+		}
+		if !same(cs, ders(step.Pub)) && len(silent) > 0 {
+			// something else came first: one of the loads that must not publish did
+			k := silent[len(silent)-1]
+			evals += c11JudgeStep(h, k, [][]tls.Certificate{cs}, cfg, strict, report)
+			return loads, evals, nil
+		}
+		store(cs)
+		reg = step.Pub
+		silent = nil
+		evals += c11JudgeStep(h, j, [][]tls.Certificate{cs}, cfg, strict, report)
+	}
+	if len(silent) > 0 { // flush: one more good load; nothing may come before its publication
+		flush := ""
+		for _, id := range []string{"A", "B", "As"} {
+			if _, ok := h.Sets[id]; ok && id != reg {
+				flush = id
+				break
+			}
+		}
+		files := map[string][]byte{}
+		for n, f := range c11GoodState(h.Sets[flush]).files {
+			files[n] = f.data
+		}
+		kv.Put(files)
+		cs, got := next(c11GateTimeout)
+		if !got {
+			return loads, evals, fmt.Errorf("the consul source did not publish the flushing content %s", flush)
+		}
+		if !same(cs, ders(flush)) {
+			k := silent[len(silent)-1]
+			evals += c11JudgeStep(h, k, [][]tls.Certificate{cs}, cfg, strict, report)
+		}
+	}
+	return loads, evals, nil
+}
+
 // ---------------------------------------------------------------- driver of both
 
 func c11SourcesPart(envName, source string, selftest bool) (cases, loads, evals, nontrivial, skipped int64, samples []string, rejected bool) {
@@ -764,6 +932,8 @@ func c11SourcesPart(envName, source string, selftest bool) (cases, loads, evals,
 			var err error
 			if src == "http" {
 				l, e, err = c11RunHTTP(h, strict, report)
+			} else if src == "consul" {
+				l, e, err = c11RunConsul(h, strict, report)
 			} else {
 				l, e, err = c11RunPath(h, strict, root, report)
 			}
